@@ -91,12 +91,29 @@ def model_measures(rows):
     return starts
 
 
-def classify(rows, ns, start_row, end_row, kern_cols_of_row, has_nonkern):
+def classify(rows, ns, start_row, end_row, kern_cols_of_row, has_nonkern, spines_at_start=None):
     cls = []
     if has_nonkern:
         cls.append('non-kern-spine-in-excerpt')
     r = rows[start_row]
-    if len(r) != ns:
+    # a split is open at the first row of the excerpt if some *^ above it has not been re-joined (terminating one of its branches does not
+    # re-join it; a whole spine terminated earlier is not a split)
+    splits = sum(1 for row in rows[1:start_row] for c in row if c == '*^')
+    merged = 0
+    for ri, row in enumerate(rows[1:start_row], start=1):
+        sp = spines_at_start[ri] if spines_at_start is not None else [0] * len(row)
+        i = 0
+        while i < len(row):
+            if row[i] == '*v':
+                j = i
+                while j + 1 < len(row) and row[j + 1] == '*v' and sp[j + 1] == sp[i]:
+                    j += 1
+                merged += j - i
+                i = j + 1
+            else:
+                i += 1
+    open_split = splits - merged > 0
+    if open_split:
         cls.append('starts-inside-open-split')
     if any(kind(c) not in ('bar', 'data') for c in r):
         cls.append('starts-at-interpretation-row')
@@ -159,7 +176,7 @@ def check(acc, job):
     for a in range(1, M + 1):
         for b in range(a, M + 1):
             end_row = starts[b] if b < M else len(rows)
-            cl = classify(rows, len(headers), starts[a - 1], end_row, kern_cols, has_nonkern)
+            cl = classify(rows, len(headers), starts[a - 1], end_row, kern_cols, has_nonkern, spine_rows)
             case = dict(case0, from_measure=a, to_measure=b, M=M, cls=cl)
             acc.count('evaluations')
             acc.count('transitions')
@@ -215,7 +232,8 @@ def run(ctx):
     A1 = ['d', 'b', 'k', 'K', 'T', 'S0', 'J0', 'n']          # uniform signature rows: the claimed core lives here
     A2 = ['d', 'b', 'k', 'C', 'M', 'S0', 'J0']                # + partial signature rows
     A3 = ['d', 'b', 'k', 'D', 'N', 'S0']                       # + signatures on the LAST column only (the spine lacking one is on the left)
-    cfg = [(['**kern'], A1, 6), (['**kern', '**kern'], A1, 5), (['**kern', '**kern'], A2, 5), (['**kern', '**kern'], A3, 5), (['**kern', '**text'], A1, 4)]
+    A4 = ['d', 'b', 'k', 'X1', 'X0', 'S0']                      # + a spine terminated early while the other goes on
+    cfg = [(['**kern'], A1, 6), (['**kern', '**kern'], A1, 5), (['**kern', '**kern'], A2, 5), (['**kern', '**kern'], A3, 5), (['**kern', '**kern'], A4, 5), (['**kern', '**text'], A1, 4)]
     if not quick:
         cfg += [(['**kern'], A1 + ['C', 'z', 'c'], 6), (['**kern', '**kern', '**kern'], ['d', 'b', 'k', 'T', 'S0', 'J0'], 5),
                 (['**text', '**kern', '**kern'], ['d', 'b', 'k', 'S1', 'J1'], 5)]
